@@ -49,8 +49,10 @@ def mk(kind, q):
 
 
 def execute(case):
-    if case["kind"] == "fiber":
-        return exec_fiber(case)
+    if case["kind"] in ("fiber", "fiber2"):
+        o = exec_fiber(case)
+        o["kind"] = case["kind"]
+        return o
     op = case["op"]
     out = {"tid": case["tid"], "kind": "scalar", "op": op, "lk": case["lk"], "rk": case["rk"], "x": case["x"], "y": case["y"], "exc": "ok",
            "res": {"kind": "none", "val": [0, 1]}, "same": 0, "boxval": [0, 1], "lafter": case["x"], "rafter": case["y"]}
